@@ -282,6 +282,25 @@ def subst_generics(gs):
     prev = GENERICS[-1] if GENERICS else []
     return [(prev[0] if re.fullmatch(r'[A-Z]', g) and prev else g) for g in gs]
 
+def split_path(p):
+    """'a::B::<X<Y>>::m::<Z>' -> [('a', ''), ('B', 'X<Y>'), ('m', 'Z')] (generic arguments attached to the segment before them)"""
+    segs, cur, depth, i = [], '', 0, 0
+    parts = []
+    while i < len(p):
+        ch = p[i]
+        if ch == '<': depth += 1
+        if ch == '>': depth -= 1
+        if depth == 0 and p.startswith('::', i):
+            parts.append(cur); cur = ''; i += 2; continue
+        cur += ch; i += 1
+    parts.append(cur)
+    for part in parts:
+        if part.startswith('<') and part.endswith('>') and segs:
+            segs[-1] = (segs[-1][0], part[1:-1])
+        else:
+            segs.append((part, ''))
+    return segs
+
 def disc_value(e, ctx):
     if isinstance(e, Str): return 0 if getattr(e, 'cow', 'Borrowed') == 'Borrowed' else 1      # Cow<str>
     if hasattr(e, 'idx'): return e.idx
@@ -1128,6 +1147,12 @@ def call(fr, callee, args, ctx):
         v = args[0].get() if isinstance(args[0], Ref) else args[0]
         return Str(list(v.b))
     m = re.fullmatch(r'(?:\w+::)*(\w+)(?:::<[^>]*>)?::(\w+)(?:::<(.*)>)?', c)
+    if not m and not c.startswith('<'):
+        # Type::<nested<generics>>::method[::<generics>]: drop the type's balanced generic arguments and try again
+        depth, out, i = 0, '', 0
+        segs = split_path(c)
+        if len(segs) >= 2 and re.fullmatch(r'\w+', segs[-1][0]) and re.fullmatch(r'\w+', segs[-2][0]):
+            m = re.fullmatch(r'(\w+)::(\w+)(?:::<(.*)>)?', segs[-2][0] + '::' + segs[-1][0] + ('::<' + segs[-1][1] + '>' if segs[-1][1] else ''))
     if m and (c.startswith(('core::', 'std::', 'alloc::')) and '<impl ' in c): m = None       # inherent impls of std types are contracts, never resolved by name
     if m:      # inherent method written Type::method: resolve to the impl fn with that receiver type
         ty, meth = m.group(1), m.group(2)
